@@ -489,6 +489,7 @@ Definition compile_with (ff pf : nat) (c : cfg) (tbl : list wfdata) (prog : loop
       (* setup_single_sequence_mode *)
       if negb (depth prog1 =? 1) then Err EAssert
       else if negb (balanced prog1) then Err EAssert
+      else if l_len prog1 >? c_max c then Err ETooLong   (* repaired code: the single table must fit max_seq_len *)
       else do p <- parse_single tbl prog1; calc_segments c tbl p false
     else
       (* setup_advanced_sequence_mode *)
